@@ -83,6 +83,13 @@ Proof.
   exists s', w, al', L', E'. split; [exact H1|split; [exact H2|split; [exact H3|exact H4]]].
 Qed.
 
+(* `Grows L E L' E' al al'` is the exact account of how the lists grew: the allocator's answers al were consumed in order down to al'; each
+   block-granting answer appended one data block (and one extension block exactly when one was due) named by that answer; so: *)
+Theorem C18_handle_growth_facts : forall L E L' E' al al', Grows L E L' E' al al' ->
+  incl (L ++ E) (L' ++ E') /\ (forall b, In b (L' ++ E') -> In b (L ++ E) \/ In b (al_blocks al)) /\ incl (al_blocks al') (al_blocks al)
+  /\ exists r, al = r ++ al' /\ len L' = len L + count_some r.
+Proof. exact grows_facts. Qed.
+
 Theorem C18_handle_truncate_same : forall bs ofs key s L E al, Inv bs ofs key s L E ->
   Fr (key :: L ++ E) s (snd (fst (fst (fio_truncate bs ofs nobad s (fsize s) al)))).
 Proof. exact fio_truncate_same_fr. Qed.
@@ -141,6 +148,7 @@ Print Assumptions H.C18_handle_read.
 Print Assumptions H.C18_handle_seek.
 Print Assumptions H.C18_handle_write.
 Print Assumptions H.C18_handle_truncate_same.
+Print Assumptions H.C18_handle_growth_facts.
 Print Assumptions H.C18_handle_truncate_grow.
 Print Assumptions H.C18_handle_truncate_shrink.
 Print Assumptions H.C18_handle_flush_close.
